@@ -151,7 +151,7 @@ func checkDijkstra(c GraphCase) (fs []Finding) {
 	verifrt.ResetBudget()
 	d := floyd(c.N, c.W)
 	g := buildGraph(c.N, c.W)
-	if c.N > 1 {
+	if c.Kind == "twice" && c.N > 1 {
 		// a search from another source on the same Graph value first: results must not
 		// depend on earlier searches
 		g.Dijkstra((c.Src + 1) % c.N)
@@ -250,6 +250,14 @@ func init() {
 							continue
 						}
 						exploreCase("C18", "graph-sp", st.Tier, GraphCase{N: n, W: copyW(w), Src: src}, bound, checkDijkstra, stats, emit)
+						if n == 3 {
+							// the same search after an earlier one on the same Graph value
+							b2 := 0
+							if bound < 0 {
+								b2 = 1
+							}
+							exploreCase("C18", "graph-sp", st.Tier, GraphCase{N: n, W: copyW(w), Src: src, Kind: "twice"}, b2, checkDijkstra, stats, emit)
+						}
 					}
 				})
 			}
